@@ -357,15 +357,24 @@ impl QueryRouter {
             }
 
             Command::SetPrimaryReads => {
-                if value == "on" {
-                    debug!("Setting primary reads to on");
-                    self.primary_reads_enabled = Some(true);
-                } else if value == "off" {
-                    debug!("Setting primary reads to off");
-                    self.primary_reads_enabled = Some(false);
-                } else if value == "default" {
-                    debug!("Setting primary reads to default");
-                    self.primary_reads_enabled = None;
+                // The command is recognized whatever its case, so is its value.
+                match value.to_ascii_lowercase().as_ref() {
+                    "on" => {
+                        debug!("Setting primary reads to on");
+                        self.primary_reads_enabled = Some(true);
+                    }
+
+                    "off" => {
+                        debug!("Setting primary reads to off");
+                        self.primary_reads_enabled = Some(false);
+                    }
+
+                    "default" => {
+                        debug!("Setting primary reads to default");
+                        self.primary_reads_enabled = None;
+                    }
+
+                    _ => (),
                 }
             }
 
